@@ -15,11 +15,22 @@ Definition s_unknown : str := [63].
 Definition idt_of_callee (callee : str) : str * str :=
   if str_eqb callee s_make_path then (mp_short_idtype, mp_ns_idtype) else (s_unknown, s_unknown).
 
+(* an expression yields the language's configured extension iff it is `language.extension` (whose body reads the config key
+   WKCV_DEFINITION_FILE_EXTENSION of the language's section) or reads that key of the target language directly; anything else: "?" *)
+Definition s_lang_ext : str := [108;97;110;103;117;97;103;101;46;101;120;116;101;110;115;105;111;110].   (* language.extension *)
+Definition s_key_tail : str := [87;75;67;86;95;68;69;70;73;78;73;84;73;79;78;95;70;73;76;69;95;69;88;84;69;78;83;73;79;78;41]. (* WKCV_DEFINITION_FILE_EXTENSION) *)
+Definition ends_with (pat s : str) : bool := str_eqb (skipn (length s - length pat) s) pat.
+Definition ext_by_source (src ext : str) : str :=
+  if (str_eqb src s_lang_ext && ends_with s_key_tail language_extension_body) || ends_with s_key_tail src then ext else [63].
+Definition is_py (l : lang) : bool := match l with LPy => true | _ => false end.
+Definition is_cpp (l : lang) : bool := match l with LCpp => true | _ => false end.
+
 Definition flags_of (d : deps) : flag -> bool := get_flag d.
 
 Definition mk_cfg (l : lang) (stropping : bool) (ext : str) (sns files : list str) (prefer : bool) (std : deps -> list str)
            (stem_ default_idt : str) (tmpl_inc : bool -> list str) (has_ns : bool) : lang_cfg :=
-  {| lc_sid := sid_of l; lc_stropping := stropping; lc_ext := ext;
+  {| lc_sid := sid_of l; lc_stropping := stropping; lc_ext := ext_by_source (if is_py l then c_inc_ext_source else if is_cpp l then cpp_inc_ext_source else c_inc_ext_source) ext;
+     lc_out_ext := ext_by_source out_ext_source ext;
      lc_inc_short_idt := fst (idt_of_callee inc_path_callee); lc_inc_ns_idt := snd (idt_of_callee inc_path_callee);
      lc_out_short_idt := fst (idt_of_callee out_path_callee); lc_out_ns_idt := snd (idt_of_callee out_path_callee);
      lc_dir_idt := ns_dir_idtype; lc_support_ns := sns; lc_support_files := files; lc_prefer_system := prefer;
@@ -78,3 +89,4 @@ Definition py_external : list str :=
    [119;97;114;110;105;110;103;115] (* warnings *)].
 Definition generated_support (l : lang_cfg) (omit : bool) : list str := if omit then [] else support_outputs l.
 Definition module_file (l : lang_cfg) (m : str) : str := m ++ lc_ext l.
+
